@@ -17,6 +17,9 @@ type Clause struct {
 	Expr  string
 	Line  int
 	File  string
+	// Assumed: an `ensures-assumed` clause - callers may rely on it, the function's own verification does not prove it
+	// (the part of a contract that names an uninterpreted dependency predicate); reported as an assumption wherever used.
+	Assumed bool
 }
 
 type LoopSpec struct {
@@ -189,6 +192,10 @@ func (cs *ContractSet) parseFile(root, file string) error {
 				cur.Requires = append(cur.Requires, parseClause(rest, file, d.line))
 			case "ensures":
 				cur.Ensures = append(cur.Ensures, parseClause(rest, file, d.line))
+			case "ensures-assumed":
+				c := parseClause(rest, file, d.line)
+				c.Assumed = true
+				cur.Ensures = append(cur.Ensures, c)
 			case "lemma":
 				cur.Lemmas = append(cur.Lemmas, parseClause(rest, file, d.line))
 			case "modifies":
